@@ -515,17 +515,33 @@ class FixedArray
             boost::python::throw_error_already_set();
         }
 
+        // The source may be this array or an alias of its storage
+        // (a[::-1] = a): like a Python sequence, read all of it before
+        // writing any of it.
+        boost::shared_array<T> copy;
+        if (slicelength > 0 && sharesStorageWith (data))
+        {
+            copy.reset (new T[slicelength]);
+            for (size_t i=0; i<slicelength; ++i)
+                copy[i] = data[i];
+        }
+
         if (isMaskedReference())
         {
             for (size_t i=0; i<slicelength; ++i)
-                _ptr[raw_ptr_index(start+i*step)*_stride] = data[i];
+                _ptr[raw_ptr_index(start+i*step)*_stride] = copy ? copy[i] : T (data[i]);
         }
         else
         {
             for (size_t i=0; i<slicelength; ++i)
-                _ptr[(start+i*step)*_stride] = data[i];
+                _ptr[(start+i*step)*_stride] = copy ? copy[i] : T (data[i]);
         }
     }
+
+    // True if reading `other` reads the storage this array writes to.
+    template <typename ArrayType>
+    bool sharesStorageWith (const ArrayType &) const { return false; }
+    bool sharesStorageWith (const FixedArray<T> &other) const { return _ptr == other._ptr; }
 
     template <typename MaskArrayType, typename ArrayType>
     void
